@@ -461,6 +461,43 @@ def g_small(ctx, rng, i):
         _try(poly.contains, g.Point(Q[int(rng.integers(len(Q)))]))
 
 
+def g_collection_ctor(ctx, rng, i):
+    """Polygon collections built from one PointCollection per vertex position (and from mixed Point / PointCollection arguments): the
+    collection answers membership as the polygons built one by one do."""
+    import geometer as g
+
+    dim = 2 + i % 2
+    k = int(rng.integers(2, 5))
+    names = [ZOO_NAMES[int(j)] for j in rng.integers(0, len(ZOO_NAMES), size=k)]
+    nv = len(ZOO[names[0]])
+    names = [nm for nm in ZOO_NAMES if len(ZOO[nm]) == nv]
+    polys = []
+    for j in range(k):
+        V = [np.array(v) for v in ZOO[names[int(rng.integers(0, len(names)))]]]
+        if dim == 3:
+            V = [np.array([v[0], v[1], v[0] + 2 * v[1] + 1]) for v in V]  # the same polygon in the plane z = x + 2y + 1
+        V = _variant([np.array(v) for v in V], int(rng.integers(0, 2 * nv)))
+        off = gen.coords(rng, (dim,), 3, "int")
+        polys.append([np.append(v + off, 1) for v in V])
+    # one PointCollection per vertex position
+    cols = [g.PointCollection(np.stack([polys[j][v] for j in range(k)])) for v in range(nv)]
+    pc = _try(g.PolygonCollection, *cols)
+    singles = [_try((g.Triangle if nv == 3 else g.Polygon), *[g.Point(p) for p in polys[j]]) for j in range(k)]
+    if pc is None or any(s is None for s in singles):
+        return
+    for _ in range(4):
+        q = np.append(polys[int(rng.integers(0, k))][int(rng.integers(0, nv))][:-1] + gen.coords(rng, (dim,), 1, "int") * (0 if rng.random() < 0.3 else 1), 1)
+        if dim == 3:
+            q = polys[0][0] + 0 * q if rng.random() < 0.2 else q
+        got = _try(pc.contains, g.Point(q))
+        if got is None:
+            continue
+        want = [bool(np.all(s.contains(g.Point(q)))) for s in singles]
+        ok = np.shape(got) == (k,) and [bool(x) for x in np.asarray(got)] == want
+        ctx.judge("polygon.contains", bool(ok), [np.array(polys), q], what=f"PolygonCollection(A, B, C, ...).contains = {np.asarray(got).tolist()}, the polygons one by one answer {want}",
+                  op="PolygonCollection(vertex collections).contains", feat={"dim": dim, "nvert": nv, "ctor": "vertex_collections"}, nontrivial=True)
+
+
 def g_large(ctx, rng, i):
     """The same exact questions on figures with integer coordinates of the order of 100 to 3000 (pixel coordinates), in integer and in
     floating point representation, with the query grid scaled along."""
@@ -501,6 +538,7 @@ def g_large(ctx, rng, i):
 
 
 GROUPS = [
+    {"name": "collection_ctor", "fn": g_collection_ctor, "quick": 200, "thorough": 2000},
     {"name": "large", "fn": g_large, "quick": 256, "thorough": 2048},
     {"name": "small", "fn": g_small, "quick": 256, "thorough": 2048},
     {"name": "polygons2d", "fn": g_polygons2d, "quick": len(ZOO_NAMES) * 3 * 16, "thorough": len(ZOO_NAMES) * 3 * 24 * 4},
